@@ -106,6 +106,7 @@ def run_pipeline(prop, group_scen, tier, seed, res, bins_release=False, trace_sp
                 all_events.append((json.loads(line), set(s.keys())))
     # negative controls: deterministic sample, one corrupted field each
     stream = []
+    neg_every = min(neg_every, max(5, len(all_events) // 150))
     for idx, (ev, keys) in enumerate(all_events):
         stream.append((ev, keys, False))
         if ev.get("st") == "ok" and (idx % neg_every == 0):
